@@ -198,40 +198,66 @@ def run(ctx):
 
 
 def analyse_expand(ctx, mod, short):
+    """genhkl_all: structural patterns with metavariables (local names are free)"""
     fn = mod.func("genhkl_all")
     where = core.loc(mod, fn)
-    txt = core.unparse(fn).replace(" ", "")
-    np_ = "|".join(mod.np_alias)
-    a = list(mod.np_alias)[0]
-    ok_rots = ("Rots=%s.concatenate((spg.rot[:spg.nuniq],-spg.rot[:spg.nuniq]))" % a) in txt
-    ctx.check(ok_rots, "C05:expand:%s.rotations" % short,
-              "Rots is not concatenate((spg.rot[:spg.nuniq], -spg.rot[:spg.nuniq]))", where)
-    # application on the right of the hkl row
-    dots = [n_ for n_ in ast.walk(fn) if isinstance(n_, ast.Call) and isinstance(n_.func, ast.Attribute) and n_.func.attr == "dot"]
-    ok_dot = len(dots) == 1 and core.unparse(dots[0].args[0]).replace(" ", "") == "refl[:3]" and core.unparse(dots[0].args[1]) == "R"
-    loop_ok = "forRinRots:" in txt and "forreflinH[:]:" in txt
-    ctx.check(ok_dot and loop_ok, "C05:expand:%s.right-action" % short,
-              "family members are not dot(refl[:3], R) for every R in Rots (hkl row on the left)", where)
-    ok_stl = "stl=refl[3]" in txt and "[[stl]*len(rows)]" in txt
-    ctx.check(ok_stl, "C05:expand:%s.stl" % short, "the family's sin(theta)/lambda is not copied to each member", where)
-    ok_unique = txt.count("%s.unique(" % a) == 2 and txt.count("return_index=True") == 2 and "a[rows]" in txt
-    ctx.check(ok_unique, "C05:expand:%s.dedupe" % short,
-              "duplicates are not removed by selecting a[rows] with rows from unique(..., return_index=True)", where)
+    npa = mod.np_alias
+    # the looked-up group object
+    sgc = [n_ for n_ in ast.walk(fn) if isinstance(n_, ast.Assign) and isinstance(n_.value, ast.Call)
+           and isinstance(n_.value.func, ast.Attribute) and n_.value.func.attr == "sg" and isinstance(n_.targets[0], ast.Name)]
+    kws = sorted(tuple(sorted((k.arg, core.unparse(k.value)) for k in c.value.keywords)) for c in sgc)
+    okg = kws == [(("cell_choice", "cell_choice"), ("sgname", "sgname")), (("cell_choice", "cell_choice"), ("sgno", "sgno"))] \
+        and len({c.targets[0].id for c in sgc}) == 1
+    ctx.check(okg, "C05:expand:%s.group" % short, "the group is not sg.sg(sgname=.., cell_choice=..) / sg.sg(sgno=.., cell_choice=..)", where)
+    if not sgc:
+        raise AnalysisError("%s.genhkl_all: space-group look-up not found" % short)
+    g = sgc[0].targets[0].id
     # call of genhkl_base with the group's own attributes
+    base = mod.func("genhkl_base")
     call = [n_ for n_ in ast.walk(fn) if isinstance(n_, ast.Call) and getattr(n_.func, "id", "") == "genhkl_base"]
     okc = False
     if len(call) == 1:
         c = call[0]
-        pos = [core.unparse(x).replace(" ", "") for x in c.args]
-        kw = {k.arg: core.unparse(k.value).replace(" ", "") for k in c.keywords}
-        okc = pos == ["unit_cell", "spg.syscond", "sintlmin", "sintlmax"] and kw == {
-            "crystal_system": "spg.crystal_system", "Laue_class": "spg.Laue", "cell_choice": "spg.cell_choice", "output_stl": "True"}
+        sig = [a.arg for a in base.args.args]
+        full = dict(zip(sig, [core.unparse(x).replace(" ", "") for x in c.args]))
+        full.update({k.arg: core.unparse(k.value).replace(" ", "") for k in c.keywords})
+        okc = full == {"unit_cell": "unit_cell", "sysconditions": "%s.syscond" % g, "sintlmin": "sintlmin", "sintlmax": "sintlmax",
+                       "crystal_system": "%s.crystal_system" % g, "Laue_class": "%s.Laue" % g, "cell_choice": "%s.cell_choice" % g,
+                       "output_stl": "True"}
     ctx.check(okc, "C05:expand:%s.base-call" % short,
-              "genhkl_base is not called with the group's syscond, crystal_system, Laue, cell_choice and output_stl=True", where)
-    sgc = [n_ for n_ in ast.walk(fn) if isinstance(n_, ast.Call) and isinstance(n_.func, ast.Attribute) and n_.func.attr == "sg"]
-    kws = sorted(tuple(sorted((k.arg, core.unparse(k.value)) for k in c.keywords)) for c in sgc)
-    ctx.check(kws == [(("cell_choice", "cell_choice"), ("sgname", "sgname")), (("cell_choice", "cell_choice"), ("sgno", "sgno"))],
-              "C05:expand:%s.group" % short, "the group is not sg.sg(sgname=.., cell_choice=..) / sg.sg(sgno=.., cell_choice=..)", where)
-    uses_random = "random.rand" in txt
-    if uses_random:
+              "genhkl_base is not called with the looked-up group's syscond, crystal_system, Laue, cell_choice and output_stl=True", where)
+    # rotations: first nuniq and their negatives
+    b = {}
+    r1 = core.find_stmt("M_R = NP.concatenate((%s.rot[:%s.nuniq], -%s.rot[:%s.nuniq]))" % (g, g, g, g), fn, b, npa)
+    ctx.check(len(r1) == 1, "C05:expand:%s.rotations" % short,
+              "the expansion set is not concatenate((rot[:nuniq], -rot[:nuniq])) of the looked-up group", where)
+    Rn = r1[0][1]["M_R"] if r1 else None
+    # for refl in H: for R in Rots: append(dot(refl[:3], R))
+    ok_dot = False
+    ok_stl = False
+    ok_unique = False
+    for outer in [n_ for n_ in ast.walk(fn) if isinstance(n_, ast.For) and isinstance(n_.target, ast.Name)]:
+        inner = [x for x in outer.body if isinstance(x, ast.For) and isinstance(x.target, ast.Name)
+                 and isinstance(x.iter, ast.Name) and x.iter.id == Rn]
+        if not inner:
+            continue
+        rv, ov = inner[0].target.id, outer.target.id
+        dots = [n_ for n_ in ast.walk(inner[0]) if isinstance(n_, ast.Call) and isinstance(n_.func, ast.Attribute) and n_.func.attr == "dot"]
+        ok_dot = len(dots) == 1 and core.match_expr("NP.dot(%s[:3], %s)" % (ov, rv), dots[0], {}, npa) is not None \
+            and len(inner[0].body) == 1 and core.match_stmt("M_L.append(X_e)", inner[0].body[0], {}, npa) is not None
+        # stl of the family copied to each member; duplicates removed through unique(return_index=True)
+        bs = {}
+        st1 = [x for x in outer.body if core.match_stmt("M_s = %s[3]" % ov, x, bs, npa)]
+        un = [x for x in outer.body if core.match_stmt("(M_d, M_rows) = NP.unique((M_a * NP.random.rand(3)).sum(axis=1), return_index=True)", x, bs, npa)]
+        cat = [x for x in outer.body if core.match_stmt(
+            "M_sub = NP.concatenate((M_a[M_rows], NP.array([[M_s] * len(M_rows)]).transpose()), axis=1)", x, bs, npa)]
+        acc = [x for x in outer.body if core.match_stmt("M_all = NP.concatenate((M_all, M_sub))", x, bs, npa)]
+        ok_stl = len(st1) == 1 and len(cat) == 1 and len(acc) == 1
+        ok_unique = len(un) == 1 and len(cat) == 1
+    ctx.check(ok_dot, "C05:expand:%s.right-action" % short,
+              "family members are not dot(hkl_row[:3], R) for every R of the expansion set (hkl row on the left)", where)
+    ctx.check(ok_stl, "C05:expand:%s.stl" % short, "the family's sin(theta)/lambda (column 3 of the unique row) is not copied to each member", where)
+    ctx.check(ok_unique, "C05:expand:%s.dedupe" % short,
+              "duplicates within a family are not removed by selecting rows through unique(..., return_index=True)", where)
+    if any(isinstance(n_, ast.Attribute) and n_.attr == "rand" for n_ in ast.walk(fn)):
         ctx.note("%s.genhkl_all draws from numpy's global RNG for its de-duplication projections (side effect on the global state)" % short)
